@@ -32,7 +32,10 @@ ALPHA_EVERY = SIG_SMALL + EVERYTYPE_TOKENS
 ALPHAS = {'SIG': SIG, 'EVERY': ALPHA_EVERY, 'SMALL': SIG_SMALL, 'EXTRA': EXTRA_TOKENS,
           'OPTIONS': OPTIONS_TOKENS, 'LEGACY': LEGACY}
 FAULTS = ['{', '}', '$', '\\(', '\\)', '\\[', '\\]', '\\begin{x}', '\\end{x}',
-          '\\begin{itemize}', '\\end{itemize}']
+          '\\begin{itemize}', '\\end{itemize}', '\\begin{equation}', '\\end{equation}']
+# an opening verbatim-type environment that is never closed (default context only: these
+# environments are declared there)
+FAULTS_DEFAULT_ONLY = ['\\begin{verbatim}', '\\begin{lstlisting}']
 
 _CTX = {}
 
@@ -56,6 +59,7 @@ def plan(tier, seed):
     shards += [('soup', 'options', 'OPTIONS', 3 if tier == 'quick' else 4, k) for k in range(NSHARDS)]
     shards += [('soup', 'default', 'LEGACY', 3 if tier == 'quick' else 4, k) for k in range(NSHARDS)]
     shards += [('inject', ndocs // NSHARDS, seed * 1000 + k) for k in range(NSHARDS)]
+    shards += [('unclosed',)]
     if tier != 'quick':
         shards += [('fuzz', FUZZ_RUNS, seed * 100 + k + 1) for k in range(NSHARDS)]
     return {'shards': shards,
@@ -63,7 +67,7 @@ def plan(tier, seed):
                        'faults': FAULTS},
             'required_classes': ['soup:tree', 'soup:parse-error', 'inject:rejected',
                                  'fault:{', 'fault:}', 'fault:$', 'fault:\\begin{x}',
-                                 'fault:\\end{x}', 'fault:\\)', 'fault:\\]',
+                                 'fault:\\end{x}', 'fault:\\)', 'fault:\\]', 'unclosed-opener',
                                  'error-on-first-line:non-default', 'error-offsets:default']}
 
 
@@ -157,6 +161,16 @@ def check_inject(src, ctxname, off, fault, res, case):
     res.label('host:' + host_class(src, off), case)
     if kind == 'error':
         res.label('inject:rejected')
+        # ... and the rejection is located
+        pos = getattr(val, 'pos', None)
+        what = (getattr(val, 'error_type_info', None) or {}).get('what', '?')
+        if not isinstance(pos, int) or not (0 <= pos <= len(faulty)):
+            res.fail('c05:error-pos-out-of-input:' + str(what),
+                     'error pos=%r for input of length %d: %r' % (pos, len(faulty), faulty), case)
+        elif (val.lineno, val.colno) != linecol_model(faulty, pos, None, 0, 0):
+            res.fail('c05:error-linecol:' + str(what), 'error at pos %d of %r reports %r/%r, '
+                     'expected %r' % (pos, faulty, val.lineno, val.colno,
+                                      linecol_model(faulty, pos, None, 0, 0)), case)
         return
     if kind == 'tree':
         res.fail('c05:accepted:%s:%s' % (fault, host_class(src, off)),
@@ -174,7 +188,46 @@ def fuzz_case(s, i):
     return {'kind': 'src', 'ctx': ('default', 'extra', 'every')[i % 3], 'src': s}
 
 
+# something opened by the less common argument / body parsers and not closed before the end of
+# input: (context, opener); each is followed by every tail of TAILS and must be rejected
+UNCLOSED = [('extra', '\\begin{vcode}'), ('extra', '\\mchars{'), ('extra', '\\mcomma{'),
+            ('extra', '\\mcommak{a,'), ('extra', '\\me^{'), ('extra', '\\many('),
+            ('extra', '\\mtack{a}\\ta{'), ('extra', '\\msn{'),
+            ('options', '\\orr('), ('options', '\\odd('), ('options', '\\omark+{'),
+            ('options', '\\ofull{'), ('options', '\\begin{oenv}*('), ('options', '\\olegacy*['),
+            ('every', '\\mv|'), ('every', '\\mvb{'), ('every', '\\mr<'), ('every', '\\md<'),
+            ('every', '\\mo['), ('every', '\\begin{esd}('), ('every', '!{'),
+            ('default', '\\verb|'), ('default', '\\begin{verbatim}'),
+            ('default', '\\begin{lstlisting}[a]'), ('default', '\\begin{lstlisting}['),
+            ('default', '\\sqrt['), ('default', '\\begin{tabular}{')]
+TAILS = ['', 'a', ' a b', 'a\n\nb', '\\textbf{a}', '{a}', '$a$', 'a % c', 'a\n']
+
+
+def run_unclosed(res):
+    for ctxname, opener in UNCLOSED:
+        for tail in TAILS:
+            for lead in ('', 'x '):
+                src = lead + opener + tail
+                res.case()
+                case = {'kind': 'unclosed', 'ctx': ctxname, 'src': src}
+                kind, val = strict_outcome(src, ctxname)
+                res.nontriv((ctxname, src))
+                res.label('unclosed-opener', case)
+                if kind == 'tree':
+                    res.fail('c05:accepted:unclosed:' + opener.strip('\\')[:12],
+                             'strict mode accepted %r although %r is never closed'
+                             % (src, opener), case)
+                elif kind == 'foreign':
+                    res.fail(exc_key(val), exc_detail(val) + ' on %r' % src, case)
+                elif kind == 'nonterm':
+                    res.fail(monitor.nonterm_key(val), 'does not terminate on %r' % src, case)
+    res.exhaustive = True
+
+
 def run_shard(shard, res):
+    if shard[0] == 'unclosed':
+        run_unclosed(res)
+        return
     if shard[0] == 'fuzz':
         from .. import fuzz
         fuzz.campaign(ID, shard[1], shard[2], res)
@@ -198,8 +251,9 @@ def run_shard(shard, res):
             if kind != 'tree':
                 res.label('inject:base-document-not-accepted')
                 return          # C02's business; cannot inject into it
-            faults = FAULTS if ctxname == 'default' else \
-                [f.replace('{itemize}', '{eplain}') for f in FAULTS]
+            faults = FAULTS + FAULTS_DEFAULT_ONLY if ctxname == 'default' else \
+                [f.replace('{itemize}', '{eplain}').replace('{equation}', '{emath}')
+                 for f in FAULTS]
             for off in minitok.boundaries(src):
                 for fault in faults:
                     case = {'kind': 'inject', 'ctx': ctxname, 'src': src, 'off': off,
@@ -210,6 +264,14 @@ def run_shard(shard, res):
 
 
 def check_case(case, res):
+    if case['kind'] == 'unclosed':
+        res.case()
+        kind, val = strict_outcome(case['src'], case['ctx'])
+        if kind == 'tree':
+            res.fail('c05:accepted:unclosed:replay', 'accepted %r' % case['src'], case)
+        elif kind == 'foreign':
+            res.fail(exc_key(val), exc_detail(val), case)
+        return
     if case['kind'] == 'src':
         check_soup(case['src'], case['ctx'], res, case)
         if any(c in case['src'] for c in '\\{}$[]'):
@@ -222,6 +284,8 @@ def check_case(case, res):
 
 
 def minimise(case, key):
+    if case['kind'] == 'unclosed':
+        return case
     if case['kind'] == 'src':
         def pred(t):
             r = Result()
